@@ -114,6 +114,36 @@ def edits(rng, j, tag):
     else:
         out.append(E('dynparams-one-key-on-static', lambda k: k['public_input'].__setitem__('dynamic_params', {'a': 1}), 'err'))
         out.append(E('dynparams-empty-on-static', lambda k: k['public_input'].__setitem__('dynamic_params', {}), 'ok'))
+    # a DEEP FRI: the same total folding spread over single-step layers, so that inner layers 10, 11, ... exist; fresh commitment and
+    # decommitment lines for every inner layer (a prefix match on "Layer 1" must not swallow "Layer 10")
+    def deep(k):
+        fri = k['proof_parameters']['stark']['fri']; total = sum(fri['fri_step_list'])
+        if total < 11: raise KeyError('too shallow')
+        steps = [0] + [1] * 10 + [total - 10]; fri['fri_step_list'] = steps
+        nl = len(steps) - 1
+        ann = k['annotations']; new = []; done_c = done_d = False
+        h = lambda a, b, c: hex((a * 1000003 + b * 7919 + c + 12345) * 0x9e3779b97f4a7c15 % (1 << 250))
+        for l in ann:
+            if re.search(r'/cpu air/STARK/FRI/Commitment/Layer [1-9]', l):
+                if not done_c and 'P->V' in l:
+                    done_c = True
+                    for q in range(1, nl + 1):
+                        new.append(f'V->P: /cpu air/STARK/FRI/Commitment/Layer {q}: Evaluation point: Field Element({h(q, 0, 1)})')
+                        new.append(f'P->V[0:32]: /cpu air/STARK/FRI/Commitment/Layer {q}: Commitment: Hash({h(q, 0, 2)})')
+                continue
+            if re.search(r'/cpu air/STARK/FRI/Decommitment/Layer [1-9]', l):
+                if not done_d:
+                    done_d = True
+                    for q in range(1, nl + 1):
+                        for r in range(3):
+                            new.append(f'P->V[0:32]: /cpu air/STARK/FRI/Decommitment/Layer {q}: Row {100 * q + r}, Column {r % 2}: Field Element({h(q, r, 3)})')
+                        for r in range(2):
+                            new.append(f'P->V[0:32]: /cpu air/STARK/FRI/Decommitment/Layer {q}: For node {500 * q + r}: Hash({h(q, r, 4)})')
+                continue
+            new.append(l)
+        if not (done_c and done_d): raise KeyError('no FRI layer lines')
+        k['annotations'] = new
+    out.append(E('deep-fri-12-layers', deep, 'ok'))
     out.append(E('log_n_cosets=2^32-1', lambda k: k['proof_parameters']['stark'].__setitem__('log_n_cosets', (1 << 32) - 1), 'err'))
     return [e for e in out if e]
 
